@@ -412,6 +412,7 @@ func (w *stWorld) stStep(stmt *framework.Statement, cps *[]framework.Checkpoint,
 		if stmt.Evict(t, "verif", eviction_info.EvictionMetadata{}) != nil {
 			return "err"
 		}
+		vr.Assert(t.Status == pod_status.Releasing && t.IsVirtualStatus, "C13.successful-evict-marks-the-pod-terminating")
 		return "evict"
 	case 3: // Unevict
 		if !(t.Status == pod_status.Releasing && t.IsVirtualStatus) {
@@ -420,6 +421,8 @@ func (w *stWorld) stStep(stmt *framework.Statement, cps *[]framework.Checkpoint,
 		if stmt.Unevict(t) != nil {
 			return "err"
 		}
+		// an un-evict that reports success has put the pod back (it is not left terminating)
+		vr.Assert(t.Status != pod_status.Releasing, "C13.successful-unevict-restores-the-pod")
 		return "unevict"
 	}
 	return "skip"
@@ -541,4 +544,46 @@ func VerifC14_TruthAfterEveryStep() {
 			vr.Assert(w.truthOK(), "C14.accounting-equals-ground-truth-after-"+r)
 		}
 	}
+}
+
+// VerifC13_DeepSingleTask: longer programs over ONE task (repeated evict / un-evict / re-placement
+// of the same pod inside one statement), then Discard or Commit.
+// BOUND: 1 node, 1 task (initially Pending, Running or Releasing), L = 5 operations (quick) / 6 (thorough); cpu or whole GPUs symbolic
+func VerifC13_DeepSingleTask() {
+	w := stBuild(1, 1, stStatuses)
+	L := vr.Bound("deepOps", 5, 6)
+	before := w.dump()
+	stmt := w.ssn.Statement()
+	var cps []framework.Checkpoint
+	var dumps []stDump
+	for i := 0; i < L; i++ {
+		r := w.stStep(stmt, &cps, &dumps, i)
+		if r == "err" || r == "skip" {
+			vr.Stop()
+		}
+		if r == "end" {
+			break
+		}
+		if r != "checkpoint" {
+			vr.Assert(w.truthOK(), "C13.deep-program-accounting-equals-ground-truth")
+		}
+	}
+	if vr.AnyBool("commit") {
+		t := w.tasks[0]
+		wantEvict := t.IsVirtualStatus && t.Status == pod_status.Releasing
+		wantBind := t.IsVirtualStatus && t.Status == pod_status.Allocated
+		wantPipe := t.IsVirtualStatus && t.Status == pod_status.Pipelined
+		if stmt.Commit() != nil {
+			vr.Stop()
+		}
+		vr.Assert((len(w.cache.evicts) == 1) == wantEvict && len(w.cache.evicts) <= 1, "C13.commit-evicts-exactly-evicted")
+		vr.Assert((len(w.cache.binds) == 1) == wantBind && len(w.cache.binds) <= 1, "C13.commit-binds-exactly-allocated")
+		vr.Assert((len(w.cache.pipelines) == 1) == wantPipe && len(w.cache.pipelines) <= 1, "C13.commit-nominates-exactly-pipelined")
+		return
+	}
+	stmt.Discard()
+	after := w.dump()
+	vr.Assert(stSameShape(before, after), "C13.discard-restores-structure")
+	vr.Assert(stSameNums(before, after), "C13.discard-restores-quantities")
+	vr.Assert(len(w.cache.binds)+len(w.cache.evicts)+len(w.cache.pipelines) == 0, "C13.discard-reaches-nothing")
 }
